@@ -314,15 +314,42 @@ def check_insertion_tokens(s, g, t, r0, r1):
 def canon_diag(d, labels):
     return json.dumps([d["sev"], d["code"], d["msg"], d["help"], d["notes"], labels], sort_keys=True)
 
+LINE_REF = re.compile(r"\bline (\d+)")
+
+def line_ref_variants(txt, L, dl, own=None):
+    """A diagnostic text may MENTION a line number ("missing return in case at line 55"); it has to follow the text too.
+    L = line of the gap, dl = newlines inserted.  A reference to a line before L stays, after L moves by dl; a reference
+    to line L itself is the label's own line when `own` = (old line, new line) says so, otherwise either reading."""
+    if dl == 0 or not txt or not LINE_REF.search(txt):
+        return [txt]
+    outs = [""]
+    pos = 0
+    for m in LINE_REF.finditer(txt):
+        N = int(m.group(1))
+        if own is not None and N == own[0]:
+            alts = [own[1]]
+        elif N < L:
+            alts = [N]
+        elif N > L:
+            alts = [N + dl]
+        else:
+            alts = [N, N + dl]
+        pre = txt[pos:m.start()]
+        outs = [o + pre + "line %d" % a for o in outs for a in alts][:8]
+        pos = m.end()
+    return [o + txt[pos:] for o in outs]
+
 def expected_forms(d, s1, g, n):
     """canonical forms the diagnostic d of the ORIGINAL text may take in the reformatted text s1 (insertion of n bytes
     at byte g): byte offsets after g move by n; a zero-width label exactly at g may be the end of the token before the
     gap (stays) or the start of the token after it (moves); line/column are then what the new text says."""
     forms = [[]]
+    L = 1 + s1.count(b"\n", 0, g)
+    dl = s1.count(b"\n", g, g + n)
     for l in d["labels"]:
         style, f, so, eo, msg = l[0], l[1], l[4], l[7], l[8]
         if f != "<entry>" or so < 0:
-            opts = [l]
+            opts = [l[:8] + [m2] for m2 in line_ref_variants(msg, L, dl)] if f == "<entry>" else [l]
         else:
             def mv(o, after): return o + n if (o > g or (o == g and after)) else o
             cands = []
@@ -333,9 +360,13 @@ def expected_forms(d, s1, g, n):
             opts = []
             for (a, b) in cands:
                 pa, pb = spec_pos(s1, min(a, len(s1))), spec_pos(s1, min(b, len(s1)))
-                opts.append([style, f, pa[0], pa[1], a, pb[0], pb[1], b, msg])
-        forms = [fs + [o] for fs in forms for o in opts]
-    out = [canon_diag(d, fs) for fs in forms[:16]]
+                for m2 in line_ref_variants(msg, L, dl, own=(l[2], pa[0])):
+                    opts.append([style, f, pa[0], pa[1], a, pb[0], pb[1], b, m2])
+        forms = [fs + [o] for fs in forms for o in opts][:32]
+    heads = [dict(d, msg=a, help=b) for a in line_ref_variants(d["msg"], L, dl) for b in line_ref_variants(d["help"], L, dl)]
+    heads = [dict(h, notes=nn) for h in heads
+             for nn in ([[v] for v in line_ref_variants(h["notes"][0], L, dl)] if len(h["notes"]) == 1 else [h["notes"]])][:8]
+    out = [canon_diag(h, fs) for h in heads for fs in forms[:16]]
     # a help/note text may QUOTE the source (Location.GetText of an expression): the quotation then contains the inserted text
     if d["help"] and g >= 0 and n > 0:
         tt = s1[g:g + n].decode("utf8", "replace")
